@@ -60,6 +60,9 @@ func genUDPLifeCase(r *simrt.Rand, tier string) *UDPLifeCase {
 		n := r.Range(1, 3)
 		for j := 0; j < n; j++ {
 			rd := UDPRound{Datagrams: r.Range(1, 3), End: r.PickS("close", "closeerr", "closeerr", "rdeadline"), DelayUs: r.Pick(0, 1, 100), Closers: r.Pick(1, 1, 2, 3)}
+			if r.Bool(0.12) {
+				rd.End = "openclose" // the application ends the session inside its open notification
+			}
 			if c.Eng.UDPTimeoutS > 0 && r.Bool(0.3) {
 				rd.End = "udptimeout"
 			}
@@ -136,8 +139,9 @@ func runUDPLife(t *testing.T, ci interface{}, trace bool) *common.Outcome {
 		defer simrt.Finish()
 		w = NewWorld(t, o, "C03", c.Eng, c.K, c.Sched)
 		type remote struct {
-			sock     *kernel.Sock
-			sessions []*udpSession // one per opened session, in order
+			sock        *kernel.Sock
+			sessions    []*udpSession // one per opened session, in order
+			closeInOpen error         // non-nil: the next open notification ends its session with this error
 		}
 		remotes := make([]*remote, len(c.Remotes))
 		byAddr := map[string]*remote{}
@@ -168,6 +172,10 @@ func runUDPLife(t *testing.T, ci interface{}, trace bool) *common.Outcome {
 			}
 			r.sessions = append(r.sessions, s)
 			byConn[nc] = s
+			if err := r.closeInOpen; err != nil {
+				r.closeInOpen = nil
+				nc.CloseWithError(err)
+			}
 		})
 		w.G.OnData(func(nc *nbio.Conn, data []byte) {
 			ra := nc.RemoteAddr()
@@ -228,6 +236,24 @@ func runUDPLife(t *testing.T, ci interface{}, trace bool) *common.Outcome {
 						// let the previous round's close finish completely (see OnData above): wait
 						// until nothing else is runnable (a sleep would not do, the clock may jump)
 						simrt.Idle()
+					}
+					if rd.End == "openclose" {
+						r.closeInOpen = fmt.Errorf("closed in open %d.%d", i, j)
+						want0 := r.closeInOpen
+						w.K.PeerSendTo(r.sock, []byte{byte('a' + j)}, w.KAddr)
+						if !simrt.WaitStuck("udp-openclose", 3*time.Second, func() bool { return len(r.sessions) > j && r.sessions[j].closes > 0 }) {
+							if len(r.sessions) <= j {
+								w.Fail("C03", "udp-session-not-opened", class, "remote %d, round %d: a datagram was sent after the previous session had its close notification, but no new session was opened", i, j)
+							} else {
+								w.Fail("C03", "udp-close-notification-missing", class, "remote %d, round %d: the session was ended with CloseWithError inside its open notification but got no close notification; blocked: %v", i, j, simrt.Alive())
+							}
+							return
+						}
+						if s := r.sessions[j]; !errors.Is(s.err, want0) && !(c.Eng.UDPTimeoutS > 0 && errors.Is(s.err, nbio.ErrReadTimeout)) {
+							w.Fail("C03", "close-error-not-first-cause", "udp/openclose", "remote %d, round %d: the session was ended inside its open notification with %v but its close notification reports %v", i, j, want0, s.err)
+							return
+						}
+						continue
 					}
 					for k := 0; k < rd.Datagrams; k++ {
 						w.K.PeerSendTo(r.sock, []byte{byte('a' + j)}, w.KAddr)
